@@ -1,4 +1,193 @@
-import ZtypV.Spec
+/-
+C01 — View hash-tree-root equals the SSZ-spec Merkle root.
+
+Proved here, for EVERY pair-hash function `h` (plugged in consistently for hashing and for the
+zero-hash tower `zh h`) and with no bound on sizes: the root of the backing built by the
+default route (`TypeDef.DefaultNode`, `View.defaultNode`) and by the constructor route
+(`FromElements / FromFields / FromBits / FromView / Backing()`, `View.construct`; this
+includes zero elements) exists (no error, no panic) and equals the specification's
+`htr h t v`.
+
+Side condition `noBoolSeries t` (Proofs/ViewRoot.lean): no `Vector/List` of `boolean` anywhere
+in the type.  It is necessary: ztyp builds those unpacked (known finding D3), see
+`C01_bool_series_counterexample` below.
+
+The deserialization route and the mutation route are stated as `C01_decode_full` /
+`C01_mutation_full`; they are discharged by other contributors in Props/C03.lean (decoding is
+sound: every accepted input is `serialize t v` of a typed `v`, and the decoder builds the same
+backing shape as the constructors) and Props/C04.lean (every mutation step preserves the
+representation relation).  They are NOT proved in this file.
+-/
+import ZtypV.Proofs.ViewRoot
+import ZtypV.Model.Decode
 namespace ZtypV.Props.C01
-theorem placeholder : True := trivial
+open ZtypV
+
+/-! ### default route -/
+
+/-- the default backing tree of every well-formed type exists and its root is the spec root
+    of the type's default value -/
+theorem C01_default (h : HashFn) (t : Ty) (hwf : t.wf = true) (hnb : noBoolSeries t = true) :
+    ∃ n, View.defaultNode h t = .ok n ∧ n.root h = htr h t (defaultVal t) :=
+  defaultNode_root h t hwf hnb
+
+/-- corollary form: whatever `DefaultNode` returned has the spec root -/
+theorem C01_default_ok_root (h : HashFn) (t : Ty) (n : Node)
+    (hd : View.defaultNode h t = .ok n) (hwf : t.wf = true) (hnb : noBoolSeries t = true) :
+    n.root h = htr h t (defaultVal t) := by
+  obtain ⟨n', hn', hr⟩ := C01_default h t hwf hnb
+  rw [hd] at hn'
+  cases hn'
+  exact hr
+
+/-- the default route never errs or panics on supported types -/
+theorem C01_default_no_error (h : HashFn) (t : Ty) (e : Err)
+    (hwf : t.wf = true) (hnb : noBoolSeries t = true) : View.defaultNode h t ≠ .error e := by
+  obtain ⟨n, hn, _⟩ := C01_default h t hwf hnb
+  rw [hn]; intro hc; cases hc
+
+/-! ### constructor route -/
+
+/-- the element / field / bit constructors succeed on every typed value (including empty
+    lists and bitlists) and the view's root is the spec root of that value -/
+theorem C01_construct (h : HashFn) (t : Ty) (v : Val) (hwf : t.wf = true)
+    (hnb : noBoolSeries t = true) (hty : hasType t v = true) :
+    ∃ n, View.construct h t v = .ok n ∧ n.root h = htr h t v :=
+  construct_root h t v hwf hnb hty
+
+/-- corollary form -/
+theorem C01_construct_ok_root (h : HashFn) (t : Ty) (v : Val) (n : Node)
+    (hc : View.construct h t v = .ok n) (hwf : t.wf = true) (hnb : noBoolSeries t = true)
+    (hty : hasType t v = true) : n.root h = htr h t v := by
+  obtain ⟨n', hn', hr⟩ := C01_construct h t v hwf hnb hty
+  rw [hc] at hn'
+  cases hn'
+  exact hr
+
+/-- the constructor route never errs or panics on typed values -/
+theorem C01_construct_no_error (h : HashFn) (t : Ty) (v : Val) (e : Err) (hwf : t.wf = true)
+    (hnb : noBoolSeries t = true) (hty : hasType t v = true) :
+    View.construct h t v ≠ .error e := by
+  obtain ⟨n, hn, _⟩ := C01_construct h t v hwf hnb hty
+  rw [hn]; intro hc; cases hc
+
+/-- zero elements: the empty list (any element type, any limit) -/
+theorem C01_construct_empty_list (h : HashFn) (e : Ty) (lim : Nat) (hwf : e.wf = true)
+    (hb : e.isBool = false) (hnb : noBoolSeries e = true) :
+    ∃ n, View.construct h (.list e lim) (.seq []) = .ok n ∧
+      n.root h = htr h (.list e lim) (.seq []) :=
+  C01_construct h (.list e lim) (.seq []) (by simpa only [Ty.wf] using hwf)
+    (by simp only [noBoolSeries, hb, hnb]; rfl) (by simp [hasType, allHaveType])
+
+/-- zero elements: the empty bitlist -/
+theorem C01_construct_empty_bitlist (h : HashFn) (lim : Nat) :
+    ∃ n, View.construct h (.bitlist lim) (.bits []) = .ok n ∧
+      n.root h = htr h (.bitlist lim) (.bits []) :=
+  C01_construct h (.bitlist lim) (.bits []) rfl rfl (by simp [hasType])
+
+/-- default route and constructor route agree on the root of the default value -/
+theorem C01_default_eq_construct (h : HashFn) (t : Ty) (n m : Node)
+    (hwf : t.wf = true) (hnb : noBoolSeries t = true) (hdt : hasType t (defaultVal t) = true)
+    (hd : View.defaultNode h t = .ok n) (hc : View.construct h t (defaultVal t) = .ok m) :
+    n.root h = m.root h := by
+  rw [C01_default_ok_root h t n hd hwf hnb, C01_construct_ok_root h t _ m hc hwf hnb hdt]
+
+/-! ### the side condition is necessary (known finding D3) -/
+
+/-- for EVERY hash function, `Vector[boolean, 2]` of `[true, true]` is built as two chunks hashed
+    together, while the specification packs the two booleans into one chunk -/
+theorem C01_bool_series_roots (h : HashFn) :
+    (∃ n, View.construct h (.vector .bool 2) (.seq [.bool true, .bool true]) = .ok n ∧
+      n.root h = h (chunkOf [1]) (chunkOf [1])) ∧
+    htr h (.vector .bool 2) (.seq [.bool true, .bool true]) = chunkOf [1, 1] := by
+  refine ⟨⟨.pair (.leaf (chunkOf [1])) (.leaf (chunkOf [1])), ?_, rfl⟩, ?_⟩
+  · have hd : coverDepth 2 = 1 := by decide
+    simp only [View.construct, View.isBasicElem, View.constructList, hd]
+    rfl
+  · have hd : coverDepth (basicChunkCount 1 2) = 0 := by decide
+    have hc : chunks [1, 1] = [chunkOf [1, 1]] := by decide
+    simp only [htr, Ty.isBasic, Ty.fixedSize, serList, serialize, if_true, hd,
+      List.flatten_cons, List.flatten_nil, List.append_nil, List.cons_append, List.nil_append,
+      hc, merk, List.headD]
+
+/-- concrete witness: with the (computable) pair function "left argument", the constructed
+    root of a well-formed, well-typed `Vector[boolean, 2]` differs from the spec root -/
+theorem C01_bool_series_counterexample :
+    ∃ (h : HashFn) (v : Val) (n : Node),
+      (Ty.vector .bool 2).wf = true ∧ hasType (.vector .bool 2) v = true ∧
+      noBoolSeries (.vector .bool 2) = false ∧
+      View.construct h (.vector .bool 2) v = .ok n ∧ n.root h ≠ htr h (.vector .bool 2) v := by
+  refine ⟨fun a _ => a, .seq [.bool true, .bool true], ?_⟩
+  obtain ⟨⟨n, hn, hr⟩, hs⟩ := C01_bool_series_roots (fun a _ => a)
+  refine ⟨n, by decide, by decide, by decide, hn, ?_⟩
+  rw [hr, hs]
+  decide
+
+/-- the default route shows the same defect: two zero chunks hashed vs one zero chunk -/
+theorem C01_bool_series_default_roots (h : HashFn) :
+    (∃ n, View.defaultNode h (.vector .bool 2) = .ok n ∧ n.root h = h z0 z0) ∧
+    htr h (.vector .bool 2) (defaultVal (.vector .bool 2)) = z0 := by
+  refine ⟨⟨.pair (.leaf z0) (.leaf z0), ?_, rfl⟩, ?_⟩
+  · have hd : coverDepth 2 = 1 := by decide
+    simp only [View.defaultNode, View.isBasicElem, hd]
+    rfl
+  · have hd : coverDepth (basicChunkCount 1 2) = 0 := by decide
+    have hc : chunks [0, 0] = [z0] := by decide
+    simp only [defaultVal, htr, Ty.isBasic, Ty.fixedSize, List.replicate, serList, serialize,
+      if_true, hd, List.flatten_cons, List.flatten_nil, List.append_nil, List.cons_append,
+      List.nil_append, Bool.false_eq_true, if_false, hc, merk, List.headD]
+
+/-! ### routes proved elsewhere (full statements kept visible) -/
+
+/-- deserialization route: whatever the decoder accepts is the encoding of a typed value
+    whose spec root is the root of the view.  Discharged in Props/C03.lean (soundness of
+    `decode` + the representation lemma), not here. -/
+def C01_decode_full : Prop :=
+  ∀ (h : HashFn) (t : Ty) (bs : Bytes) (n : Node),
+    t.wf = true → noBoolSeries t = true → View.decodeTop h t bs = .ok n →
+    ∃ v, hasType t v = true ∧ serialize t v = bs ∧ n.root h = htr h t v
+
+/-- mutation route: every backing reachable from the default / constructor route by a chain of
+    typed mutations (`Reach`, Proofs/ViewRoot.lean: set element / field, append, pop, change
+    of union option, directly or through nested sub-views) still has the spec root of the
+    correspondingly updated plain value.  Discharged in Props/C04.lean (simulation of the view
+    machine of Model/Machine.lean by the value machine, which also covers the sub-chunk
+    updates of packed elements and bits), not here. -/
+def C01_mutation_full : Prop :=
+  ∀ (h : HashFn) (t : Ty) (v : Val) (n : Node), Reach h t v n → n.root h = htr h t v
+
+/-! ### non-vacuity -/
+
+/-- the hypotheses of `C01_construct` / `C01_default` hold on a concrete nested type and value -/
+example : c01ExTy.wf = true ∧ noBoolSeries c01ExTy = true ∧ hasType c01ExTy c01ExVal = true := by
+  decide
+
+example (h : HashFn) :
+    ∃ n, View.construct h c01ExTy c01ExVal = .ok n ∧ n.root h = htr h c01ExTy c01ExVal :=
+  C01_construct h c01ExTy c01ExVal (by decide) (by decide) (by decide)
+
+example (h : HashFn) :
+    ∃ n, View.defaultNode h c01ExTy = .ok n ∧ n.root h = htr h c01ExTy (defaultVal c01ExTy) :=
+  C01_default h c01ExTy (by decide) (by decide)
+
+/-- the default value is itself typed, so `C01_default_eq_construct` is not vacuous -/
+example : hasType c01ExTy (defaultVal c01ExTy) = true := by decide
+
+/-- empty list of a complex element type with a huge limit (no size bound in the theorems) -/
+example (h : HashFn) :
+    ∃ n, View.construct h (.list (.bitlist 5) (2 ^ 40)) (.seq []) = .ok n ∧
+      n.root h = htr h (.list (.bitlist 5) (2 ^ 40)) (.seq []) :=
+  C01_construct_empty_list h (.bitlist 5) (2 ^ 40) rfl rfl rfl
+
+/-- the corollary forms have satisfiable hypotheses: the constructor really returns a node -/
+example : ∃ n, View.construct (fun a _ => a) (.list (.uint 2) 3) (.seq [.num 5]) = .ok n :=
+  let ⟨n, hn, _⟩ := C01_construct (fun a _ => a) (.list (.uint 2) 3) (.seq [.num 5])
+    (by decide) (by decide) (by decide)
+  ⟨n, hn⟩
+
+/-- `Reach` is inhabited (the mutation statement is not vacuous) -/
+example (h : HashFn) : ∃ n, Reach h (.bitlist 9) (.bits []) n :=
+  let ⟨n, hn, _⟩ := C01_construct h (.bitlist 9) (.bits []) rfl rfl (by decide)
+  ⟨n, Reach.construct rfl rfl (by decide) hn⟩
+
 end ZtypV.Props.C01
